@@ -8,6 +8,7 @@ import (
 	"math/rand"
 	"net"
 	"os"
+	"sort"
 	"strconv"
 	"strings"
 	"sync"
@@ -23,6 +24,158 @@ type world struct {
 	shuf  bool
 	hosts map[int]*gocql.HostInfo
 	ids   map[*gocql.HostInfo]int
+	// what the harness itself knows about the scenario (for the specification of the replica phases;
+	// nothing here is read back from the policy under test except its host list)
+	kind       string
+	ldc, lrack string
+	nonlocal   bool
+	partSet    bool
+	attrs      map[*gocql.HostInfo]hostAttr
+	tables     map[string][]tabEntry
+}
+
+type hostAttr struct {
+	dc, rack string
+	toks     []int
+}
+
+type tabEntry struct {
+	tok   int
+	hosts []*gocql.HostInfo
+}
+
+// tier of a host as the property defines it: local rack / local DC / remote DC for the rack-aware
+// policy, local / remote DC for the dc-aware one, one tier for round-robin.
+func (w *world) tier(h *gocql.HostInfo) int {
+	a := w.attrs[h]
+	switch w.kind {
+	case "rr":
+		return 0
+	case "dc":
+		if a.dc == w.ldc {
+			return 0
+		}
+		return 1
+	}
+	if a.dc != w.ldc {
+		return 2
+	}
+	if a.rack == w.lrack {
+		return 0
+	}
+	return 1
+}
+
+func (w *world) maxTier() int {
+	if w.kind == "rack" {
+		return 2
+	}
+	return 1
+}
+
+// specReplicas: the replica list of the query (keyspace table entry of the first token >= tok, wrapping;
+// without a table the owner of the token in the ring of the policy's hosts), shuffled with the
+// permutation of the op line. known=false: the query has no replica list (no key, no ring, empty ring).
+func (w *world) specReplicas(ks string, tokS string, perms string) (reps []*gocql.HostInfo, known bool, emptyRing bool) {
+	if !w.isTA || !w.partSet || ks == "-" || tokS == "-" {
+		return nil, false, false
+	}
+	t := atoi(tokS)
+	if tab := w.tables["ks"+ks]; len(tab) > 0 {
+		e := tab[0]
+		for _, x := range tab {
+			if x.tok >= t {
+				e = x
+				break
+			}
+		}
+		reps = e.hosts
+		if w.shuf && perms != "-" {
+			for _, ps := range strings.Split(perms, ";") {
+				p := intList(ps)
+				if len(p) == len(reps) {
+					out := make([]*gocql.HostInfo, len(reps))
+					for i, j := range p {
+						out[i] = reps[j]
+					}
+					reps = out
+					break
+				}
+			}
+		}
+		return reps, true, false
+	}
+	_, taHosts, _ := gocql.VerifPolicyLists(w.pol)
+	var owner, first *gocql.HostInfo
+	best, lo := -1, -1
+	for _, h := range taHosts {
+		for _, ht := range w.attrs[h].toks {
+			if lo < 0 || ht < lo {
+				lo, first = ht, h
+			}
+			if ht >= t && (best < 0 || ht < best) {
+				best, owner = ht, h
+			}
+		}
+	}
+	if owner == nil {
+		owner = first
+	}
+	if owner == nil {
+		return nil, false, true
+	}
+	return []*gocql.HostInfo{owner}, true, false
+}
+
+// specHead: SPECIFICATION of the replica phases (Lean: Policies.specHead; the model's head is proved
+// equal to it for every replica list, C11_tokenaware_remote_order): tier after tier, the up replicas of
+// that tier in replica-list order; farther tiers only with NonLocalReplicasFallback.
+func (w *world) specHead(reps []*gocql.HostInfo) []*gocql.HostInfo {
+	last := 0
+	if w.nonlocal {
+		last = w.maxTier()
+	}
+	var head []*gocql.HostInfo
+	for t := 0; t <= last; t++ {
+		for _, h := range reps {
+			if w.tier(h) == t && h.IsUp() {
+				head = append(head, h)
+			}
+		}
+	}
+	return head
+}
+
+func hasDup(l []*gocql.HostInfo) bool {
+	seen := map[*gocql.HostInfo]bool{}
+	for _, h := range l {
+		if seen[h] {
+			return true
+		}
+		seen[h] = true
+	}
+	return false
+}
+
+// hasGap: a farther tier has a replica while a nearer remote tier has none (the state of KF-C11-1)
+func (w *world) hasGap(reps []*gocql.HostInfo) bool {
+	if !w.nonlocal {
+		return false
+	}
+	cnt := make([]int, w.maxTier()+1)
+	for _, h := range reps {
+		cnt[w.tier(h)]++
+	}
+	for t := 1; t < len(cnt); t++ {
+		if cnt[t] == 0 {
+			for u := t + 1; u < len(cnt); u++ {
+				if cnt[u] > 0 {
+					return true
+				}
+			}
+		}
+	}
+	return false
 }
 
 func tok(n int) string { return fmt.Sprintf("%04d", n) }
@@ -134,6 +287,14 @@ func (w *world) exec(op string) (res string) {
 		w.ids = map[*gocql.HostInfo]int{}
 		w.isTA = f[2] == "1"
 		w.shuf = f[5] == "1"
+		w.kind, w.ldc, w.lrack = f[1], ldc, lrack
+		if w.kind != "rr" && w.kind != "dc" {
+			w.kind = "rack"
+		}
+		w.nonlocal = w.isTA && f[6] == "1"
+		w.partSet = w.isTA && f[7] == "1"
+		w.attrs = map[*gocql.HostInfo]hostAttr{}
+		w.tables = map[string][]tabEntry{}
 		if w.isTA {
 			w.pol = newTA(fb, f[5] == "1", f[6] == "1")
 			gocql.VerifTAInit(w.pol, "verif_session_ks")
@@ -159,6 +320,7 @@ func (w *world) exec(op string) (res string) {
 		}
 		w.hosts[id] = h
 		w.ids[h] = id
+		w.attrs[h] = hostAttr{dc: "dc" + f[3], rack: "r" + f[4], toks: intList(f[5])}
 		return "ok"
 	case "add", "remove", "hup", "hdown":
 		if len(f) != 2 {
@@ -201,7 +363,14 @@ func (w *world) exec(op string) (res string) {
 			hs = append(hs, l)
 		}
 		if w.isTA {
-			gocql.VerifTASetReplicas(w.pol, "ks"+f[1], toks, hs)
+			if gocql.VerifTASetReplicas(w.pol, "ks"+f[1], toks, hs) {
+				tab := make([]tabEntry, len(hs))
+				for i := range hs {
+					tab[i] = tabEntry{tok: atoi(strings.SplitN(f[2+i], ":", 2)[0]), hosts: hs[i]}
+				}
+				sort.Slice(tab, func(i, j int) bool { return tab[i].tok < tab[j].tok })
+				w.tables["ks"+f[1]] = tab
+			}
 		}
 		return "ok"
 	case "pick":
@@ -223,6 +392,16 @@ func (w *world) exec(op string) (res string) {
 		}
 		ksName := "ks" + f[1]
 		limit := atoi(f[3])
+		// the specified head is computed BEFORE the pick (state of the hosts as the iterator will see it)
+		var head []*gocql.HostInfo
+		dupReps := false
+		// (a replica list with duplicates - the C10 defect's business, excluded from the uniqueness theorems -
+		// is left to the model-vs-code comparison)
+		if reps, known, _ := w.specReplicas(f[1], f[2], f[4]); known && !hasDup(reps) {
+			head = w.specHead(reps)
+		} else if known {
+			dupReps = true
+		}
 		it := w.pol.Pick(gocql.VerifQuery(ksName, rk))
 		var got []*gocql.HostInfo
 		for n := 0; n < limit; n++ {
@@ -231,15 +410,26 @@ func (w *world) exec(op string) (res string) {
 				break
 			}
 			if sh.Info() == nil {
-				return "nilhost"
+				return "crash:property violated on the real code: nil host offered"
 			}
 			got = append(got, sh.Info())
 			if n > 500 {
-				return "inf"
+				return "crash:property violated on the real code: the iterator does not end"
 			}
 		}
+		// the property itself, evaluated on the real sequence: the replica phases (every pick) ...
+		for i, h := range head {
+			if i >= limit {
+				break
+			}
+			if i >= len(got) || got[i] != h {
+				return "crash:property violated on the real code: replicas not offered first, tier by tier: expected head=" +
+					w.showIDs(head) + " offered=" + w.showIDs(got)
+			}
+		}
+		// ... and on a full drain: only up hosts, every up host, no host twice
 		if limit >= 1000 {
-			if v := w.oracle(got); v != "" {
+			if v := w.oracle(got, len(head), dupReps); v != "" {
 				return "crash:property violated on the real code: " + v + " offered=" + w.showIDs(got)
 			}
 		}
@@ -251,8 +441,10 @@ func (w *world) exec(op string) (res string) {
 }
 
 // oracle checks the property itself on a fully drained sequence of the real iterator: only up hosts,
-// every up host of the policy's lists, and (bare round-robin based policies) no host twice.
-func (w *world) oracle(got []*gocql.HostInfo) string {
+// every up host of the policy's lists, no host twice (token-aware: unless the replica list itself has a
+// duplicate), and after the replica phases (the first nHead hosts) nearer tiers before farther ones
+// (theorems C11_policy_all_states, C11_tokenaware_all_states).
+func (w *world) oracle(got []*gocql.HostInfo, nHead int, dupReps bool) string {
 	seen := map[*gocql.HostInfo]int{}
 	for _, h := range got {
 		if !h.IsUp() {
@@ -260,7 +452,7 @@ func (w *world) oracle(got []*gocql.HostInfo) string {
 		}
 		seen[h]++
 	}
-	layers, _, isTA := gocql.VerifPolicyLists(w.pol)
+	layers, _, _ := gocql.VerifPolicyLists(w.pol)
 	for _, l := range layers {
 		for _, h := range l {
 			if h != nil && h.IsUp() && seen[h] == 0 {
@@ -268,10 +460,15 @@ func (w *world) oracle(got []*gocql.HostInfo) string {
 			}
 		}
 	}
-	if !isTA {
+	if !dupReps {
 		for _, n := range seen {
 			if n > 1 {
 				return "host offered twice"
+			}
+		}
+		for i := nHead + 1; i < len(got); i++ {
+			if w.tier(got[i-1]) > w.tier(got[i]) {
+				return "farther tier offered before a nearer one after the replica phases"
 			}
 		}
 	}
@@ -469,12 +666,22 @@ func (g *gen) pick() {
 	if limit < 1000 {
 		cls += "/limited"
 	}
+	// the states of the two fixed findings, counted in the distribution
+	if reps, known, empty := g.w.specReplicas(ks, tk, perms); empty {
+		cls += "/emptyring"
+	} else if known && g.w.hasGap(reps) {
+		cls += "/tiergap"
+		if hasDup(reps) {
+			cls += "-dup"
+		}
+	}
 	g.emit(fmt.Sprintf("pick %s %s %d %s", ks, tk, limit, perms), cls, true)
 }
 
 // exhaustive small scope (thorough): token-aware over every fallback kind, with and without non-local
 // fallback, 4 hosts with every assignment of (dc, rack) in {(0,0),(0,1),(1,0)}, every up/down pattern,
-// every replica list of at most 2 distinct hosts; full drain of one pick each.
+// every replica list of at most 2 distinct hosts; full drain of one pick each; plus, per up/down pattern,
+// a pick on a keyspace without replica table (empty token ring: the state of the fixed finding KF-C11-2).
 func exhaustive(g *gen) {
 	places := [][2]int{{0, 0}, {0, 1}, {1, 0}}
 	var repls []string
@@ -506,6 +713,9 @@ func exhaustive(g *gen) {
 						g.emit("repl 0 500:"+rp, "exh/repl", false)
 						g.emit("pick 0 100 1000 -", "exh/pick/"+kind, true)
 					}
+					// keyspace without replica table, no host has tokens: the empty-ring state of KF-C11-2
+					g.emit("pick 1 100 1000 -", "exh/pick/"+kind+"/emptyring", true)
+					g.emit("pick 1 100 1 -", "exh/pick/"+kind+"/emptyring", true)
 				}
 			}
 		}
